@@ -249,7 +249,7 @@ _CATCH_MATRIX = ('bounded-prefetch-catch-matrix', _mk('prefetch_catch_matrix', '
 
 EXTRA_MORE = {
     'C06': [_CATCH_MATRIX],
-    'C05': [('bounded-stop-fuzz', _fuzz_stop)],
+    'C05': [('bounded-stop-inside-user-code', _mk('stop_inside_user_code', 'close() of prefetch(1, b), b in {1, 2}, while the background thread is inside a 1.5 s user function: when it has returned nothing more is applied and the thread is gone; close() after 1 of 10 slow examples of a parallel map over multiprocessing / concurrent_mp / mp pools (buffer 6, 2 workers): started <= delivered + workers + 1 (+ workers + 1 for the executor call queue), nothing starts afterwards')), ('bounded-stop-fuzz', _fuzz_stop)],
     'C07': [('bounded-readahead-dataset-level', _mk('readahead_dataset_level', 'list of 24 .map(f0) below map(g, num_workers=w, buffer_size=b) [fast and slow g, thread backend; multiprocessing and concurrent_mp (+ mp, dill_mp thorough) for the source side] and below prefetch(1, b) / prefetch(2, 3): f0 applications beyond the examples delivered <= b + 2 at the pause points of a slow consumer AND at the instant of every application (fast consumer, 12 reads); g applications started beyond those delivered <= b'))],
     'C02': [('bounded-offered-lengths', _mk('offered_lengths', 'sources of 0,1,2,5,8 examples; lazy apply (slice / eager filter / tile / shuffle), filter, catch, unbatch, reshuffle, local shuffle, prefetch, dynamic buckets, each also under map / batch / local shuffle: len() is refused or equals the iteration count')),
             ('bounded-numpy-indices', _mk('numpy_indices', '18 pipelines over 300 examples, 28 boundary indices, np.int8/uint8/int16 (quick) plus uint16/int32/int64 (thorough): ds[dtype(i)] equals ds[int(i)]'))],
